@@ -102,11 +102,17 @@ func genMsg(rng *rand.Rand) (string, func() netty.Message) {
 		return "b:" + hexOrDash(b), func() netty.Message { return append([]byte(nil), b...) }
 	case 1:
 		n := rng.Intn(4)
+		aliased := rng.Intn(2) == 0
+		if aliased {
+			n = 3 + rng.Intn(2)
+		}
 		bs := make([][]byte, n)
 		for i := range bs {
 			bs[i] = pl(sz() % 1500)
+			if aliased {
+				bs[i] = pl(1 + rng.Intn(12))
+			}
 		}
-		aliased := n >= 2 && rng.Intn(3) == 0
 		perm := rng.Perm(n)
 		return "v:" + hexList(bs), func() netty.Message {
 			cp := make([][]byte, len(bs))
